@@ -18,6 +18,18 @@ CHECKS = {
     "C04": ("exploration", "3.C04",
             "The collector client fires collect_garbage(), enable_deferred_deletion(false) and StatusAttrib::garbage_collection (marks, manifoldness flag, tracked handle subsets incl. handles of removed entities and invalid handles) at scheduler-chosen instants; afterwards the mesh must equal the model's logical mesh (which is mode independent, i.e. the immediate-deletion twin), no pending deletions, tracked handles designate the same uid or are invalid.",
             "As C02 for renumbering; marks are drawn with p=0.12 per live entity."),
+    "C05": ("exploration", "3.C05",
+            "In every state reached by the histories (deleted prefixes/middles/suffixes, empty meshes): the six entity iterators via begin/end, iter()+valid(), range-for and backward stepping yield the live handles ascending / descending; all 26 circulators plus boundary_halfface_halffaces: forward sequence equals the expected incident list (brute force for bottom-up ones, stored definition order for top-down ones) repeated max_laps (1..3) times, no duplicates where the relation is a set, begin/end loop agrees, end == begin advanced past the last lap, --(++it) == it at every position incl. lap boundaries, empty centre => invalid circulator and empty range.",
+            "Each centre is checked for one lap count (rotating 1,2,3) and every fifth centre for all three; behaviour of -- from begin and of ++/-- on an invalid iterator is not demanded; tet/hex circulators are covered by C15/C16."),
+    "C08": ("exploration", "3.C08",
+            "On every live edge and face of every reached state: opposite halfedge swaps endpoints, halfface(opposite) is the reversed list of opposite halfedges, opposite twice is the identity, all handle conversions (static and member) are mutually inverse on the handles of the state, on boundary indices and on 16 random indices < 2^30 per state; every face is a closed loop; vertex/halfedge/edge circulators of the two sides enumerate the same cycle in opposite directions; next/prev_halfedge_in_halfface are inverse steps.",
+            "The clause 'for every index in [0,2^30) exhaustively' is enumeration of a pure function and is outside this technique: only sampled indices are checked."),
+    "C09": ("exploration", "3.C09",
+            "In histories without set_face/set_cell, after every op an independent recogniser classifies each edge from the top-down arrays; for single-fan edges (closed ring or one open chain) both halfedges' halfface lists must be in rotational order (successor = opposite of the in-cell neighbour, boundary only last) and mirror each other; adjacent_halfface_in_cell on every closed cell equals the brute-force partner, accepts either orientation when unambiguous, and is an involution. What varies is the order in which cells are attached/removed around an edge, toggles, swaps and collections.",
+            "Edges the recogniser cannot classify (faces containing the edge twice, cells with !=2 halffaces at the edge, disconnected fans) are skipped and counted, never failed."),
+    "C10": ("exploration", "3.C10",
+            "In reached states with all incidences on: find_halfedge on all ordered vertex pairs (sampled beyond 150), find_halfface / find_halfface_extensive / find_halfface_in_cell / find_halfedge_in_cell on tuples taken from faces (rotated, reversed, one vertex replaced, reordered beyond the third, shortened) and random tuples, find_halfface(halfedge pair), get_halfface_vertices x3, is_incident, n_vertices_in_cell; oracle = brute-force search over live definitions: sound (returned entity is live and really matches) and complete (invalid only if nothing qualifies).",
+            "Where duplicate edges/faces or faces with repeated vertices make several answers qualify or the documented 'first three checked' shortcut ambiguous, the case is skipped."),
     "C11": ("exploration", "3.C11",
             "Builder issues valid and invalid argument lists (open/reversed/repeated halfedges, missing/doubled/flipped halffaces, both orientations, wrong valence for tet/hex) with topology check on all three kernels, with and without vertex incidences and in deferred states with deleted edges between the vertices; oracle = acceptance predicate of the statement, exact definition of the appended entity, full snapshot equality after a rejected call, add_edge dedup returns a live joining edge.",
             "Empty lists are not generated yet (planned); hex checked add_cell may store a permuted valid list reordered (C16 judges the order)."),
@@ -35,12 +47,8 @@ CHECKS = {
             "Incidence caches are checked by C01's battery in the C01/C12 checks, not here."),
 }
 NOT_YET = {
-    "C05": "check not built yet in this round (planned: HIST battery over all iterators/circulators)",
     "C06": "check not built yet in this round (planned: STOR world round trips + independent OVMB codec)",
     "C07": "check not built yet in this round (planned: STOR world fault injection into stored bytes)",
-    "C08": "check not built yet in this round (planned: HIST mirror-algebra battery)",
-    "C09": "check not built yet in this round (planned: HIST fan-order battery)",
-    "C10": "check not built yet in this round (planned: HIST lookup battery)",
     "C15": "check not built yet in this round (planned: HIST tet-kernel battery)",
     "C16": "check not built yet in this round (planned: HIST hex-kernel battery)",
     "C18": "check not built yet in this round (planned: STOR fault enumeration)",
